@@ -274,6 +274,9 @@ func c16Run(c *core.Ctx, idx int) {
 		if mode >= 2 {
 			recv = stackage.And().Push("pre-existing")
 			before = 1
+			if AutoMutex || idx%7 == 3 {
+				recv.SetMutex() // (the process-wide lock watcher turns a re-acquired lock into a reported panic)
+			}
 		}
 		var err error
 		call := func() {
